@@ -7,6 +7,7 @@ import Regatta.Driver.MetaMode
 import Regatta.Driver.QueueMode
 import Regatta.Driver.WireMode
 import Regatta.Driver.RestoreMode
+import Regatta.Driver.CrashMode
 /-
   Model driver: one operation per input line, one answer per output line.
   usage: driver <mode> < ops.txt > model.txt
@@ -34,6 +35,7 @@ def main (args : List String) : IO UInt32 := do
   | ["queue"] => loop stdin stdout Driver.QueueMode.step ({} : Driver.QueueMode.St)
   | ["heap"] => loop stdin stdout Driver.QueueMode.hstep ([] : Queue.Heap)
   | ["wire"] => loop stdin stdout Driver.WireMode.step ()
+  | ["crash"] => loop stdin stdout Driver.CrashMode.step ({} : Driver.CrashMode.St)
   | ["restore"] => loop stdin stdout Driver.RestoreMode.step ()
   | _ => IO.eprintln "usage: driver <mode>"; return 2
   stdout.flush
